@@ -186,17 +186,17 @@ def C14_propagate_args_sound_full : Prop :=
     ∀ (k : Nat) (i : Nat × Bool), m.inputs[k]? = some i → ∀ w,
       (Der (laImp m) m i.1 env0 w ↔ Der noImp m' i.1 env0 w)
 
-/-- What is proved: the statement under the decidable certificate `propCertB m (laFlags m) m'`, which the
+/-- What is proved: the statement under the decidable certificate `propCertB m (laFlowFlags m) m'`, which the
 driver evaluates on EVERY case (a compiled grammar whose certificate fails is reported as a disagreement):
 `m'` differs from `m` only by lookahead parameters added to nonterminals and by arguments `p := p`
 (on the first symbol of an alternative, where the flag flows implicitly) and `p := false` (where it does
 not flow, or the caller does not have it) — these leave the meaning unchanged when an unset lookahead flag
 is `false`. WHICH nonterminals receive a flag is not derived from the worklist of the mirror; it is only
-checked through the certificate (the flag sets `laFlags m` serve as the witness). General form: any two
+checked through the certificate (the sets `laFlowFlags m` — where a flag can flow to a user through first symbols — serve as the witness). General form: any two
 environments related by `EnvRel` give the same language. -/
-theorem C14_propagate_args_sound_partial (m m' : TGrammar) (hcert : propCertB m (laFlags m) m' = true)
+theorem C14_propagate_args_sound_partial (m m' : TGrammar) (hcert : propCertB m (laFlowFlags m) m' = true)
     (N : Nat) (nt' : Nonterm) (hN : m'.nts[N]? = some nt') (e e' : Env)
-    (hR : EnvRel m (Fof (laFlags m) N) nt'.params e e') (w : List Nat) :
+    (hR : EnvRel m (Fof (laFlowFlags m) N) nt'.params e e') (w : List Nat) :
     Der (laImp m) m N e w ↔ Der noImp m' N e' w :=
   ⟨fun h => propagate_forward hcert h nt' e' hN hR, fun h => propagate_backward hcert h nt' e hN hR⟩
 
@@ -230,7 +230,7 @@ theorem C14_pipeline_inputs_use_defaults (src : TGrammar) (fuel : Nat) (insts : 
           have h1 := (Prod.mk.inj h).2
           have h2 := Prod.mk.inj h1
           have hre : r = (insts, G) := Option.some.inj h2.1
-          have hcert : propCertB m (laFlags m) m' = true := h2.2
+          have hcert : propCertB m (laFlowFlags m) m' = true := h2.2
           subst hre
           refine ⟨m', ?_, m, rfl, hp, hi⟩
           intro hd
@@ -245,7 +245,7 @@ theorem C14_pipeline_inputs_use_defaults (src : TGrammar) (fuel : Nat) (insts : 
           | none => simp [hnt] at hnp
           | some nt' =>
             simp only [hnt, List.isEmpty_iff] at hnp
-            have hR : EnvRel m (Fof (laFlags m) i.1) nt'.params env0 env0 := by
+            have hR : EnvRel m (Fof (laFlowFlags m) i.1) nt'.params env0 env0 := by
               rw [hnp]; exact envRel_env0 _
             have e1 := resolveAll_sound hr i.1 env0 w
             have e2 := C14_propagate_args_sound_partial m m' hcert i.1 nt' hnt env0 env0 hR w
